@@ -10,6 +10,9 @@ D=$VERIF/build/replay/$H; mkdir -p $D/src
 sed "s#@REPO@#$REPO#; s#^name = \"rp_replay\"#name = \"rp_replay_$H\"#" $HERE/Cargo.toml.tmpl > $D/Cargo.toml
 cp $HERE/src/*.rs $D/src/; cp /repo/Cargo.lock $D/Cargo.lock 2>/dev/null
 export CARGO_TARGET_DIR=$VERIF/build/replay_target CARGO_NET_OFFLINE=true CARGO_INCREMENTAL=0
+# prune what earlier (possibly interrupted) runs against scratch copies left behind: harness binaries and per-path builds of the crate
+# that have not been touched for two hours (dependencies stay: they are shared by every run)
+find $CARGO_TARGET_DIR/debug -maxdepth 2 \( -name 'rp_replay_*' -o -name '*rusty_paseto-*' \) -mmin +120 ! -name "rp_replay_$(echo /repo | md5sum | cut -c1-10)*" -delete 2>/dev/null
 rc=0
 run_set() { # $1 = log name, rest = cargo feature args
   local log=$1; shift
